@@ -198,6 +198,54 @@ func flipUnit(ki int) harness.Unit {
 	}}
 }
 
+// subkeyUnit: the GHASH subkey H = SM4_K(0^128) and the GHASH operands are data dependent, so the
+// key alphabet is extended by keys FOUND by a deterministic search (key = counter pattern) whose H
+// has a 0x00 byte, a 0xff byte, a set top bit or a set low bit at each of the 16 byte positions; for
+// each a small (|A|,|P|,|IV|) product and AAD/plaintext filled with 0x00 and 0xff (zero and all-one
+// GHASH operands) is compared with GCM over the reference SM4.
+func subkeyUnit(pos int) harness.Unit {
+	return harness.Unit{Name: fmt.Sprintf("ghash-subkey-alphabet/byte%d", pos), Run: func(c *harness.Ctx) {
+		want := []struct {
+			name string
+			ok   func(b byte) bool
+		}{{"00", func(b byte) bool { return b == 0 }}, {"ff", func(b byte) bool { return b == 0xff }}, {"80", func(b byte) bool { return b == 0x80 }}, {"01", func(b byte) bool { return b == 0x01 }}}
+		found := map[string][]byte{}
+		zero := make([]byte, 16)
+		for ctr := 0; ctr < 1<<16 && len(found) < len(want); ctr++ {
+			key := pu.Msg(ctr, 16)
+			key[0], key[1] = byte(ctr), byte(ctr>>8)
+			h := make([]byte, 16)
+			refsm4.Must(key).Encrypt(h, zero)
+			for _, w := range want {
+				if _, ok := found[w.name]; !ok && w.ok(h[pos]) {
+					found[w.name] = key
+				}
+			}
+		}
+		for name, key := range found {
+			for _, ivl := range []int{12, 16, 1} {
+				for _, al := range []int{0, 1, 16, 17} {
+					for _, pl := range []int{0, 1, 16, 33} {
+						for _, fill := range []int{-1, 0x00, 0xff} {
+							a, p := pu.Msg(al+1, al), pu.Msg(pl+2, pl)
+							if fill >= 0 {
+								a, p = bytes.Repeat([]byte{byte(fill)}, al), bytes.Repeat([]byte{byte(fill)}, pl)
+								if al == 0 && pl == 0 {
+									continue
+								}
+							}
+							checkCase(c, caseT{key, pu.Msg(ivl+3, ivl), p, a, fmt.Sprintf("H[%d]=%s iv%d A%d P%d fill=%d", pos, name, ivl, al, pl, fill)}, false)
+						}
+					}
+				}
+			}
+		}
+		if len(found) < len(want) {
+			c.Note("subkey search at byte %d found only %d of %d patterns", pos, len(found), len(want))
+		}
+	}}
+}
+
 func bigUnit() harness.Unit {
 	return harness.Unit{Name: "large", Run: func(c *harness.Ctx) {
 		for _, n := range []int{255, 256, 4095, 4096, 65536} {
@@ -290,6 +338,9 @@ var Prop = &harness.Prop{
 			u = append(u, flipUnit(k))
 		}
 		u = append(u, bigUnit(), tlsUnit())
+		for b := 0; b < 16; b++ {
+			u = append(u, subkeyUnit(b))
+		}
 		if tier == "thorough" {
 			u = append(u, reuseUnit(4))
 		} else {
